@@ -333,6 +333,27 @@ def readGroupFile (suites : List Suite) (reg : List (Str × Suite)) (bad : List 
   | .err => .ok .err
   | .unsup => .unsup
 
+/-! ### how the text reaches the reader (`toml.DecodeReader(f, …)` = read everything, then decode)
+
+An `io.Reader` hands the text out in chunks — as many bytes per `Read` as it likes (a file: all at once; a pipe:
+what was written; `iotest.OneByteReader`: one).  `chunks` = what the successive `Read` calls return before EOF. -/
+
+/-- the loop of `ioutil.ReadAll`: every chunk is appended to what was read before -/
+def readAllFrom : List Str → Str → Str
+  | [], buf => buf
+  | c :: cs, buf => readAllFrom cs (buf ++ c)
+
+/-- `ioutil.ReadAll(f)` -/
+def readAll (chunks : List Str) : Str := readAllFrom chunks []
+
+/-- a reader that calls `Read` once (seeded change C18r7-B): the first chunk is taken for the whole text -/
+def readOnce (chunks : List Str) : Str := chunks.head?.getD []
+
+/-- `ReadGroupDescToml(f)` for a reader that delivers `chunks` -/
+def readGroupReader (suites : List Suite) (reg : List (Str × Suite)) (bad : List Str) (chunks : List Str) :
+    Toml.PR (Res (List ServerId)) :=
+  readGroupFile suites reg bad (readAll chunks)
+
 /-- `LoadCothority` + `GetServerIdentity` from the text of the file -/
 def readPrivateFile (suites : List Suite) (reg : List (Str × Suite)) (bad : List Str) (text : Str) :
     Toml.PR (Res ServerId) :=
